@@ -238,3 +238,38 @@ def c03_m_blockring_reorg(ctx, v):
             seen = True
         v.covers_total += 1
         v.covers_sat += 1 if seen else 0
+
+
+def c03_unwind_full_before_revert(ctx, v):
+    """every unwind step of the dispatcher reverts the utxoset from the block's FULL form: in
+    unwind_chain the block is upgraded (Block::upgrade_block_to_block_type(Full), which reloads
+    pruned transactions) before Block::on_chain_reorganization(utxoset, false) runs, and in
+    wind_chain the blocks are upgraded (upgrade_blocks_for_wind_chain) before validation and
+    before Block::on_chain_reorganization(utxoset, true)."""
+    for n_new, n_old in ((2, 1), (3, 2)):
+        ex, outs, valid, bound = obl_c04._explore(ctx, v, n_new, n_old)
+        seen = 0
+        for o in outs:
+            if o.kind in ("unsupported", "path-limit"):
+                return v.undecided("%s %s" % (o.kind, o.info))
+            if not ex.feasible(o.pc):
+                continue
+            upgraded = False
+            steps = 0
+            for e in o.events:
+                if e[0] != "call":
+                    continue
+                name = re.sub(r"<impl at [^>]*>", "", e[1])
+                if re.search(r"Block::upgrade_block_to_block_type$|Blockchain::upgrade_blocks_for_wind_chain$", name):
+                    upgraded = True
+                elif re.search(r"(?:^|::)Block::on_chain_reorganization$", name):
+                    steps += 1
+                    v.queries += 1
+                    if not upgraded:
+                        v.fail("|new|=%d |old|=%d: a block's transactions are applied to / reverted from the utxoset before the block was upgraded to its full form (a pruned block would revert nothing)" % (n_new, n_old),
+                               dict(events=[re.sub(r"<impl at [^>]*>", "", x[1])[-60:] for x in o.events if x[0] == "call"][:30]))
+                        break
+                    upgraded = False
+            seen += 1 if steps else 0
+        v.covers_total += 1
+        v.covers_sat += 1 if seen else 0
